@@ -810,6 +810,31 @@ func c15FuncFingerprint(fset *token.FileSet, file *ast.File, name string) (strin
 	return "", fmt.Errorf("function %s not found", name)
 }
 
+// c15MethodFingerprint is c15FuncFingerprint for a method, looked up by the name of its receiver type
+func c15MethodFingerprint(fset *token.FileSet, file *ast.File, recv, name string) (string, error) {
+	for _, d := range file.Decls {
+		fd, ok := d.(*ast.FuncDecl)
+		if !ok || fd.Name.Name != name || fd.Recv == nil || len(fd.Recv.List) != 1 {
+			continue
+		}
+		t := fd.Recv.List[0].Type
+		if st, isStar := t.(*ast.StarExpr); isStar {
+			t = st.X
+		}
+		id, isID := t.(*ast.Ident)
+		if !isID || id.Name != recv {
+			continue
+		}
+		var sb strings.Builder
+		if err := printer.Fprint(&sb, fset, fd); err != nil {
+			return "", err
+		}
+		norm := strings.Join(strings.Fields(sb.String()), " ")
+		return fmt.Sprintf("%x", sha256.Sum256([]byte(norm)))[:16], nil
+	}
+	return "", fmt.Errorf("method %s.%s not found", recv, name)
+}
+
 func palsConstFacts(repo string) (string, error) {
 	fset := token.NewFileSet()
 	path := filepath.Join(repo, "align", "pals", "pals.go")
@@ -896,6 +921,19 @@ func palsConstFacts(repo string) (string, error) {
 			return "", err
 		}
 		fp, err := c15FuncFingerprint(fs2, f2, t.fn)
+		if err != nil {
+			return "", err
+		}
+		fmt.Fprintf(&sb, "def %s : String := %q\n", t.lean, fp)
+	}
+	// the two orders the suppression of AlignTraps sorts by (the model sorts by both coordinates)
+	for _, t := range []struct{ recv, lean string }{{"starts", "fpStartsLess"}, {"ends", "fpEndsLess"}} {
+		fs2 := token.NewFileSet()
+		f2, err := parser.ParseFile(fs2, filepath.Join(repo, "align", "pals", "dp", "sort.go"), nil, 0)
+		if err != nil {
+			return "", err
+		}
+		fp, err := c15MethodFingerprint(fs2, f2, t.recv, "Less")
 		if err != nil {
 			return "", err
 		}
